@@ -18,6 +18,12 @@ package fasthttp
 //@   ghost inLoop bool = false
 //@   ghost pend int = 0
 //@   ghost allowed bool = false
+//   streamReq: the request carried a body stream when Do was entered. Writing a request closes and forgets its stream,
+//   so IsBodyStream answers true only before the first transmission.
+//@   ghost streamReq bool
+//@   on call Request.IsBodyStream -> r:
+//@     nohavoc
+//@     returns streamReq && sent == 0
 //@   on call HostClient.do:
 //@     requires[within-deadline] timeout > 0 ==> lastUntil > 0
 //@     requires[retransmits-only-when-the-policy-said-retry] sent == 0 || allowed
@@ -40,11 +46,11 @@ package fasthttp
 //@     iter ndRetry = *; lastUntil = 0; inLoop = true
 //@     invariant[count]       sent == attempts && attempts < maxAttempts
 //@     invariant[pending]     pend == 1
-//@     invariant[stream-once] hasBodyStream ==> sent == 0
+//@     invariant[stream-once] streamReq ==> sent == 0
 //@     invariant[policy-allowed-another-attempt] sent == 0 || allowed
 //@     invariant[idem-only]   c.RetryIf == nil && c.RetryIfErr == nil && c.RetryIfErrUpstream == nil && !idem ==> sent == 0
 //@   ensures[bounded]             sent <= maxAttempts && (c.MaxIdemponentCallAttempts > 0 ? maxAttempts == c.MaxIdemponentCallAttempts : maxAttempts == 5)
-//@   ensures[body-stream-once]    hasBodyStream ==> sent <= 1
+//@   ensures[body-stream-once]    streamReq ==> sent <= 1
 //@   ensures[non-idempotent-once] c.RetryIf == nil && c.RetryIfErr == nil && c.RetryIfErrUpstream == nil && !idem ==> sent <= 1
 //@   ensures[pending-balanced]    pend == 0
 
@@ -342,3 +348,19 @@ package fasthttp
 //@   frame assumed
 //@   ensures[at-most-one-delivery] atlock(w.conn != nil || w.err != nil) ==> !ok && w.conn == atlock(w.conn) && w.err == atlock(w.err)
 //@   ensures[delivered] ok ==> w.conn == conn && w.err == err
+
+// newClientTLSConfig (C21): every dialled address gets its own TLS configuration -- a clone of the caller's (one
+// Client.TLSConfig is shared by all per-host clients), with the server name derived from that address filled in. The
+// caller's configuration is never handed out and never written, so the name of one host cannot end up verifying the
+// connection of another.
+//@ func newClientTLSConfig results r err
+//@   property C21
+//@   mode skeleton
+//@   on call tls.Config.Clone(x) -> cl:
+//@     nohavoc
+//@     ensures cl != nil && cl != x
+//@   on call tlsServerName -> name, e:
+//@     nohavoc
+//@   end
+//@   ensures[own-copy-per-address] err == nil && old(c) != nil ==> r != old(c)
+//@   ensures[callers-config-not-written] old(c) != nil ==> deref(old(c)).ServerName == old(c.ServerName)
